@@ -138,9 +138,10 @@ PLAN = {
     },
     "C12": {
         "level": "fault_enumeration",
-        "rule": "as C02; the mmap/munmap ledger is judged after every call and at every scope exit; distinct = class tuples",
+        "rule": "as C02; the mmap/munmap ledger is judged after every call and at every scope exit; plus the cycles family: 200 to 100000 create/install/drop cycles in one process (1-6 installs per cycle over 8 targets with repetition, refused installs, 1 in 7 cycles ending by panic), ledger judged per cycle and executable anonymous mappings compared before the first / every 4096 / after the last cycle; distinct = class tuples",
         "assumptions": [A_S, A_N],
-        "parts": [s_part("S-histories", "C12", "x86_64_linux,aarch64_linux", 24000, 2400000), n_part("N-histories", "C12", 480, 48000)],
+        "parts": [s_part("S-histories", "C12", "x86_64_linux,aarch64_linux", 24000, 2400000), n_part("N-histories", "C12", 480, 48000),
+                  n_part("N-cycles", "C12", 16, 128, selftest=4, extra_args=["--family", "cycles"])],
     },
     "C15": {
         "level": "fault_enumeration",
